@@ -495,6 +495,11 @@ def find_origin_by_gaussian_fit(IM, axes=(0, 1), verbose=False,
     for a in axes:
         # sum along the other axis
         proj = np.sum(IM, axis=1 - a)
+        # (the fit tolerances are absolute: make the fit independent of the
+        # overall image scale, which does not affect the center)
+        scale = np.max(np.abs(proj))
+        if scale > 0 and np.isfinite(scale):
+            proj = proj / scale
         # find gaussian center
         origin[a] = fit_gaussian(proj)[1]
     origin = tuple(origin)
